@@ -460,11 +460,54 @@ func collectFieldPairs(pk *packages.Package, isProto func(*types.Named) bool) []
 
 // unitOf: the time unit applied in an expression: x.Seconds() / x.Milliseconds() / x.UnixNano(),
 // or time.Duration(x) * time.Second / time.Millisecond, time.Unix(0, x).
-func unitOf(pk *packages.Package, e ast.Expr) string {
+func unitOf(pk *packages.Package, e ast.Expr) string { return unitOfDepth(pk, e, 0) }
+
+var funcDeclCache = map[*packages.Package]map[types.Object]*ast.FuncDecl{}
+
+// funcDeclsOf indexes the function declarations of a package by their object.
+func funcDeclsOf(pk *packages.Package) map[types.Object]*ast.FuncDecl {
+	if m, ok := funcDeclCache[pk]; ok {
+		return m
+	}
+	m := map[types.Object]*ast.FuncDecl{}
+	for _, f := range pk.Syntax {
+		for _, d := range f.Decls {
+			if fd, ok := d.(*ast.FuncDecl); ok && fd.Body != nil {
+				if o := pk.TypesInfo.Defs[fd.Name]; o != nil {
+					m[o] = fd
+				}
+			}
+		}
+	}
+	funcDeclCache[pk] = m
+	return m
+}
+
+func unitOfDepth(pk *packages.Package, e ast.Expr, depth int) string {
 	unit := ""
 	ast.Inspect(e, func(n ast.Node) bool {
 		switch x := n.(type) {
 		case *ast.CallExpr:
+			// a conversion helper of the same package whose body is one return statement (secondsToDuration(x)):
+			// the unit is the one its returned expression applies
+			if depth < 2 {
+				var id *ast.Ident
+				switch f := x.Fun.(type) {
+				case *ast.Ident:
+					id = f
+				case *ast.SelectorExpr:
+					id = f.Sel
+				}
+				if id != nil {
+					if fd := funcDeclsOf(pk)[pk.TypesInfo.Uses[id]]; fd != nil && len(fd.Body.List) == 1 {
+						if rs, isRet := fd.Body.List[0].(*ast.ReturnStmt); isRet && len(rs.Results) == 1 {
+							if u := unitOfDepth(pk, rs.Results[0], depth+1); u != "" {
+								unit = u
+							}
+						}
+					}
+				}
+			}
 			if se, ok := x.Fun.(*ast.SelectorExpr); ok {
 				switch se.Sel.Name {
 				case "Seconds":
